@@ -31,6 +31,8 @@ struct TaskBase {
 	};
 };
 
+#pragma pack(pop)
+
 // - - - - - - - - - - - - - - - - - - - - - - - - - - - - - - - - - - - - - - -
 
 FFSM2_CONSTEXPR(11)
@@ -103,8 +105,6 @@ struct TaskT<void> final
 {
 	using TaskBase::TaskBase;
 };
-
-#pragma pack(pop)
 
 ////////////////////////////////////////////////////////////////////////////////
 
